@@ -12,15 +12,23 @@ Record inst (F : Type) := mkInst {
   i_ops : NumOps F; i_fma : F -> F -> F -> F; i_eps : F;
   i_eqb : F -> F -> bool;        (* bit equality (all NaNs identified) *)
   i_Q : F -> Q; i_fin : F -> bool;
-  i_u : Q                         (* unit roundoff *)
+  i_u : Q;                        (* unit roundoff *)
+  i_max : Q;                      (* largest finite number of the format *)
+  i_minn : Q                      (* smallest positive normal number of the format *)
 }.
 Arguments i_ops {F}. Arguments i_fma {F}. Arguments i_eps {F}. Arguments i_eqb {F}.
-Arguments i_Q {F}. Arguments i_fin {F}. Arguments i_u {F}.
+Arguments i_Q {F}. Arguments i_fin {F}. Arguments i_u {F}. Arguments i_max {F}. Arguments i_minn {F}.
+
+Definition f64_maxQ : Q := Eval vm_compute in Qred (inject_Z 9007199254740991 * Qpow2 971).   (* (2^53-1) 2^971 *)
+Definition f64_minnQ : Q := Eval vm_compute in Qpow2 (-1022).
+Definition f32_maxQ : Q := Eval vm_compute in Qred (inject_Z 16777215 * Qpow2 104).           (* (2^24-1) 2^104 *)
+Definition f32_minnQ : Q := Eval vm_compute in Qpow2 (-126).
 
 Definition I64 : inst float :=
-  mkInst float B64_ops fma64 0x1p-52%float f64_biteq f64_Q f64_finite (1 # 9007199254740992).
+  mkInst float B64_ops fma64 0x1p-52%float f64_biteq f64_Q f64_finite (1 # 9007199254740992) f64_maxQ f64_minnQ.
 Definition I32 : inst spec_float :=
-  mkInst spec_float B32_ops fma32 (S754_finite false 8388608 (-46)) b32_biteq SF2Qd sf_finite (1 # 16777216).
+  mkInst spec_float B32_ops fma32 (S754_finite false 8388608 (-46)) b32_biteq SF2Qd sf_finite (1 # 16777216)
+         f32_maxQ f32_minnQ.
 
 (** * Case format *)
 Record lin_case (F : Type) := mkLin {
@@ -180,14 +188,35 @@ Definition oracle_lin (c : lin_case F) : N :=
     end
   end.
 
+(** One row of the norm scaler, judged on the exact rational values of input and output.
+    What the property demands of a non-zero row x (all three exact norms of a non-zero finite row are
+    non-zero and at least the smallest subnormal, so "non-zero norm" is no restriction):
+    - max norm: always representable, so the image must have unit norm (rows of subnormal entries included);
+    - l1 norm: unit norm whenever the exact norm sum|x_i| stays finite under every rounding of the
+      summation, (sum|x_i|) (1 + 2(p+2)u) <= MAX; beyond that the norm is legitimately +inf and only
+      finiteness of the output is demanded (bit 64 of [oracle_norm]);
+    - l2 norm: unit norm whenever the exact norm is finite, (sum x_i^2) (1 + 4(p+4)u) <= MAX^2.  The
+      code squares the entries first, so it can only achieve this when the exact sum of squares lies in
+      the range where neither the squares underflow (>= 16 p min_normal: total underflow error <= u/16
+      relative) nor their sum overflows (<= MAX/2): inside that range a failure is bit 32, outside it
+      (norm representable, squares not) it is reported under its own bit 8192.
+    Non-finite outputs have value 0 under [i_Q], so an inf/NaN row also fails the unit-norm test. *)
 Definition oracle_norm_row (k : norm_kind) (p : nat) (x y : list F) : N :=
   let xq := map (i_Q I) x in let yq := map (i_Q I) y in let u := i_u I in
   let pp := inject_Z (Z.of_nat p) in
   if forallb (Qeq_bool 0) xq then flag (vec_eqb x y) 32     (* zero rows stay as they are *)
   else
     match k with
-    | NL1 => flag (close (2 * (pp + 2) * u) (qsum (map Qabs' yq)) 1) 32
-    | NL2 => flag (close (4 * (pp + 4) * u) (qsum (map qsq yq)) 1) 32
+    | NL1 =>
+        if Qleb (qsum (map Qabs' xq) * (1 + 2 * (pp + 2) * u)) (i_max I)
+        then flag (close (2 * (pp + 2) * u) (qsum (map Qabs' yq)) 1) 32
+        else 0%N
+    | NL2 =>
+        let s := qsum (map qsq xq) in
+        let unit := close (4 * (pp + 4) * u) (qsum (map qsq yq)) 1 in
+        if Qleb (16 * pp * i_minn I) s && Qleb (2 * s) (i_max I) then flag unit 32
+        else if Qleb (s * (1 + 4 * (pp + 4) * u)) (qsq (i_max I)) then flag unit 8192
+        else 0%N
     | NMax => flag (close (4 * u) (qmaxabs yq) 1) 32
     end.
 
